@@ -1,10 +1,10 @@
 SPECIFICATION Spec
 CONSTANTS
-  NF = 1
-  MaxLen = 10
-  Kinds = {"sublog", "subshort", "mod", "modeonly"}
-  MaxHunks = 1
-  MaxBody = 2
+  NF = 2
+  MaxLen = 9
+  Kinds = {"mod", "modeonly", "modemod", "bin", "modebin", "renmode", "rename", "del"}
+  MaxHunks = 2
+  MaxBody = 3
   Preamble = TRUE
   MaxConf = 1
   Buf = 1
